@@ -14,6 +14,9 @@
      messageExchangeSet.newExchange/addExchange, removeExchange, expireExchange, count, stopExchanges
      Relayer.canHandleNewCall            PRel1 (state test and pending.Inc() under the state read-lock)
      Relayer.decrementPending, canClose  PRelLive, PCE3/PCE6
+     InboundCallResponse.SendSystemError PErr, PErrRm (a handler answers with a system error: the REPAIRED order --
+                                         conn.SendSystemError first, then doneSending -> mex.shutdown)
+     Connection.handlePingReq            PPing, PPong (the REPAIRED test: only a Closed connection refuses a ping)
 
    Thread-local values that live across atomic steps are in the program counter
    (curState/origState of checkExchanges, the message id of a request).
@@ -93,6 +96,10 @@ Definition oBegun : Z := 20.       Definition oCClosed1 : Z := 21.
 Definition oCClosed2 : Z := 22.    Definition oCShut : Z := 23.   Definition oCDup : Z := 24.
 Definition oRelDone : Z := 30.     Definition oRelRefused : Z := 31.  Definition oRelRemote : Z := 32.
 Definition oRemoved : Z := 40.     Definition oNotFound : Z := 41.
+Definition oPong : Z := 80.
+(* a handler that answered with system error [code] (one byte): outcome oErrBase + code *)
+Definition oErrBase : Z := 100.
+Definition code_ok (code : Z) : bool := (0 <=? code) && (code <=? 255).
 
 Inductive pc :=
 | PDone (o id : Z)
@@ -133,7 +140,13 @@ Inductive pc :=
 (* relayed call *)
 | PRel1 (id : Z) (remote : bool)    (* next: canHandleNewCall() *)
 | PRelRef (id : Z)                  (* next: SendSystemError(id, declined) *)
-| PRelLive (id : Z).                (* the call holds one unit of pending; next: decrementPending *)
+| PRelLive (id : Z)                 (* the call holds one unit of pending; next: decrementPending *)
+(* the handler of a dispatched call answers with a system error (InboundCallResponse.SendSystemError) *)
+| PErr (id code : Z)                (* next: response.conn.SendSystemError(id, code) *)
+| PErrRm (id code : Z)              (* next: doneSending -> mex.shutdown() -> removeExchange *)
+(* handlePingReq(frame id) *)
+| PPing (id : Z)                    (* next: c.readState() *)
+| PPong (id : Z).                   (* next: sendMessage(pingRes): sendCh <- frame (no state test) *)
 
 Definition resume (k : cont) : pc :=
   match k with
@@ -248,12 +261,24 @@ Definition tstep (s : shared) (tid : nat) (p : pc) : option (shared * pc) :=
       else Some (s, if remote then PDone oRelRemote id else PRelRef id)
   | PRelRef id => Some (send_err s tid id eDeclined, PDone oRelRefused id)
   | PRelLive id => Some (set_pending s (pending s - 1) (deln tid (g_live s)), PCE0 (KDone oRelDone id))
+  (* InboundCallResponse.SendSystemError: the error frame (a one-byte code) is queued first; then
+     doneSending shuts the exchange down (removeExchange -> checkExchanges when it was found) *)
+  | PErr id code => if code_ok code then Some (send_err s tid id code, PErrRm id code) else None
+  | PErrRm id code =>
+      let '(s', found) := remove_ex true id s in
+      if found then Some (s', PCE0 (KDone (oErrBase + code) id)) else Some (s', PDone (oErrBase + code) id)
+  (* handlePingReq: a connection that is not Closed answers (also while it drains); a Closed one
+     goes to protocolError.  sendMessage puts the ping res on sendCh without a state test; it
+     touches none of the modelled variables *)
+  | PPing id => if st s =? sCl then Some (s, PProtoSend id) else Some (s, PPong id)
+  | PPong id => Some (s, PDone oPong id)
   end.
 
 (* thread kinds that can be started *)
 Inductive kind :=
 | TCloser | TFailer | TReader (id : Z) | TCaller | TFinIn (id : Z) | TFinOut (id : Z)
-| TExpire (id : Z) | TRelay (id : Z) (remote : bool) | TChecker.
+| TExpire (id : Z) | TRelay (id : Z) (remote : bool) | TChecker
+| TFinInErr (id code : Z) | TPing (id : Z).
 
 Definition start_pc (k : kind) : pc :=
   match k with
@@ -266,6 +291,8 @@ Definition start_pc (k : kind) : pc :=
   | TExpire id => PExp id
   | TRelay id remote => PRel1 id remote
   | TChecker => PCE0 (KDone oChecked 0)
+  | TFinInErr id code => PErr id code
+  | TPing id => PPing id
   end.
 
 Record sys := mkSys { sh : shared; thr : list pc }.
@@ -297,7 +324,7 @@ Definition init (relay : bool) : sys := mkSys (sh0 relay) [].
 (* ---- harness entry point ------------------------------------------------------------
    case:  relay nops (op a b c)*
      op 0: spawn thread of kind a (1 closer 2 failer 3 reader 4 caller 5 fin-in 6 fin-out
-           7 expire 8 relay 9 checker) with message id b and flag c
+           7 expire 8 relay 9 checker 10 handler-system-error (code c) 11 ping) with message id b and flag c
      op 1: run thread a until its program counter is at a schedule point whose class bit is
            set in mask b, or the thread is done (fuel 64)
      op 2 / op 3: as op 0 / op 1 but without an observation (steps the implementation performs
@@ -318,7 +345,8 @@ Definition kind_of (a b c : Z) : option kind :=
   if a =? 1 then Some TCloser else if a =? 2 then Some TFailer else if a =? 3 then Some (TReader b)
   else if a =? 4 then Some TCaller else if a =? 5 then Some (TFinIn b) else if a =? 6 then Some (TFinOut b)
   else if a =? 7 then Some (TExpire b) else if a =? 8 then Some (TRelay b (bz c))
-  else if a =? 9 then Some TChecker else None.
+  else if a =? 9 then Some TChecker else if a =? 10 then Some (TFinInErr b c) else if a =? 11 then Some (TPing b)
+  else None.
 
 Fixpoint run_to (fuel : nat) (s : sys) (tid : nat) (mask : Z) (first : bool) : sys * Z :=
   match nth_error (thr s) tid with
